@@ -8,6 +8,8 @@
 
 from typing import Any, Callable, Optional, Sequence, Union
 
+import numpy as np
+
 import scico.numpy as snp
 from scico._autograd import linear_adjoint
 from scico.numpy.util import indexed_shape, is_nested
@@ -86,9 +88,25 @@ def linop_from_function(f: Callable, classname: str, f_name: Optional[str] = Non
     return OpClass
 
 
+_LINEAR_PAD_MODES = ("constant", "edge", "wrap", "reflect", "symmetric", "mean", "empty")
+
+
+def _linear_pad(x, pad_width, mode="constant", **kwargs):
+    """:func:`scico.numpy.pad` restricted to the options for which padding is a linear map."""
+    if callable(mode) or mode not in _LINEAR_PAD_MODES:
+        raise ValueError(
+            f"Padding mode {mode} is not a linear function of the input; supported modes are "
+            f"{_LINEAR_PAD_MODES}."
+        )
+    for key in ("constant_values", "end_values"):
+        if key in kwargs and np.any(np.asarray(kwargs[key]) != 0):
+            raise ValueError(f"Parameter {key} must be zero for the padding to be a linear operator.")
+    return snp.pad(x, pad_width, mode=mode, **kwargs)
+
+
 Transpose = linop_from_function(snp.transpose, "Transpose", "scico.numpy.transpose")
 Reshape = linop_from_function(snp.reshape, "Reshape")
-Pad = linop_from_function(snp.pad, "Pad", "scico.numpy.pad")
+Pad = linop_from_function(_linear_pad, "Pad", "scico.numpy.pad")
 Sum = linop_from_function(snp.sum, "Sum")
 
 
